@@ -16,6 +16,14 @@ HINTS = {
        "line ends, TAB, leading / trailing blanks, upper / lower case, an empty field. As before the visible effect must be a violation of "
        "the property above, the test suite must still pass, and the change must need something specific to manifest. Make your two changes "
        "of two DIFFERENT kinds from this list."),
+ '11': ("Choose changes of two DIFFERENT kinds from this list: (a) a count or size at a representation boundary: 255 / 256, 65535 / 65536, 127 / 128 "
+        "things (channels, frames, records, rows, characters, files), or one more than a buffer or block size used in the code; (b) two modes of the "
+        "same operation that must agree on valid input: keep-going against strict, recursive against flat, with and without an optional table / header / "
+        "index, raise_on_error on and off, private data shown and hidden; (c) bytes against str (or str against pathlib.Path, list against tuple) for an argument "
+        "the code accepts in both forms; (d) floating-point specials and printing: NaN, infinities, -0.0, denormals, a value that rounds up to the next power "
+        "of ten in the requested format (9.9996 with three decimals), a very long mantissa; (e) paths: relative against absolute, a trailing separator, '..', "
+        "a change of the current directory between two calls, an output directory that is the input directory. As before the visible effect must be a "
+        "violation of the property above, the test suite must still pass, and the change must need something specific to manifest."),
  '10': ("Choose changes of two DIFFERENT kinds from this list: (a) something the library RETURNS aliases its internal state (a list, dict, set or "
         "array it keeps using): a caller who changes the result changes later answers, or the library later changes what it handed out; "
         "(b) two objects of the same class alive at the same time (two readers, writers, indexes, selectors) influence each other through a "
